@@ -27,7 +27,7 @@ REAL = ["bec2format.bf3file (set_config, derive_comments_from_config, writer, re
         "(derive_auth_blocks_from_config, Bec2File)", "bec2format.configid", "plug-in + pyaes"]
 STUBS = ["medium: SimFS (ENOSPC for failed writes, restart)", "RNG: SimRng", "RefCfg: model of components / comments / "
          "block kinds + own TLV block decoder"]
-PROBES = ["second-set-config", "component-without-type-before-config", "set-config-after-reload", "derive-after-reload",
+PROBES = ["second-file-object", "second-set-config", "component-without-type-before-config", "set-config-after-reload", "derive-after-reload",
           "failed-write", "stale-derived-comment-candidate", "derive-blocks-on-empty", "update-block-expected",
           "insert-behind-config"]
 ASSUMPTIONS = ["identifier existence rule taken from the C12 text: version present and (numeric scheme complete or name present)"]
@@ -62,6 +62,8 @@ def gen(st, tier):
         elif r < 0.76:
             ops.append(["comment", w.choice(["FirmwareId", "Note", "X"]),
                         w.choice([None, "1053", "abc def", "v: 2"])])
+        elif r < 0.79:
+            ops.append(["fresh_file"])
         elif r < 0.84:
             ops.append(["write", "cfg.bec2"])
         elif r < 0.88:
@@ -281,6 +283,18 @@ def run(case):
                 if 0x02 in bec.auth_blocks:
                     codes[0x02] = bec.auth_blocks[0x02].config_security_code
                 out.ev("derive_blocks", ci, custmode, tags)
+            elif k == "fresh_file":
+                # the host starts another package in the same process: nothing may carry over
+                bec = bfm.Bec2File(env.bf3file.Bf3File(), [], skey)
+                m_comments = {}
+                last = None
+                codes = {}
+                nset = 0
+                out.probes["second-file-object"] += 1
+                if bec.auth_blocks or bec.bf3file.components or bec.bf3file.comments:
+                    out.fail("C11.fresh-file", "not-empty", "a newly created file already holds blocks %r / %d components "
+                             "/ comments %r" % (list(bec.auth_blocks), len(bec.bf3file.components), bec.bf3file.comments))
+                out.ev("fresh_file")
             elif k == "add_comp":
                 _, where, cspec = op
                 comp = env.bf3file.Bf3Component({int(t): bytes.fromhex(v) for t, v in cspec["desc"]},
